@@ -453,7 +453,8 @@ func Render(dirs []*Dir, l *Layout) *Rendered {
 	for _, n := range names {
 		fb := rr.files[n]
 		b := []byte(fb.sb.String())
-		if l.NoFinalEOL && n == out.Root && len(b) >= len(l.EOL) {
+		if l.NoFinalEOL && (n == out.Root || l.rnd(len(n)*31+int(n[0]), "nofinaleol", 2) == 0) && len(b) >= len(l.EOL) {
+			// (also some of the included files end without a line break)
 			b = b[:len(b)-len(l.EOL)]
 		}
 		out.Files[n] = b
